@@ -8,10 +8,11 @@
 (* expectation is the specification's (value-level identity for Duplicate).  *)
 (***************************************************************************)
 EXTENDS PatchImpl, TLC, Json
-CONSTANTS Mode, Emit
+CONSTANTS Mode, Emit, CircLimit, WithLimitCases
 VARIABLES c, phase
 
 N1 == VNum(N_one)
+MaxOf(S) == CHOOSE x \in S : \A y \in S : y <= x
 RemB(a0, m0) == a0 - m0 * (a0 \div m0)
 RECURSIVE DeepTrail(_)            \* [[...[[],1]...,1],1]: every level has a trailing sibling
 DeepTrail(d) == IF d = 0 THEN VArr(<<>>) ELSE VArr(<<DeepTrail(d - 1), N1>>)
@@ -20,7 +21,18 @@ DeepObj(d) == IF d = 0 THEN VNull ELSE VObj(<< <<<<107>>, DeepObj(d - 1)>>, <<<<
 RECURSIVE DeepMix(_)
 DeepMix(d) == IF d = 0 THEN VArr(<<N1, VNull>>) ELSE VArr(<<VObj(<< <<<<97>>, DeepMix(d - 1)>>, <<<<98>>, VTrue>> >>), VNull, VStr(<<121>>)>>)
 RepC(ch, n) == [i \in 1..n |-> ch]
-DupCases == {DeepTrail(d) : d \in {1, 8, 15, 16, 17, 31, 32, 33, 34, 35, 36, 40, 64, 100}}
+\* nesting around CJSON_CIRCULAR_LIMIT (CircLimit: 10000 in the default build, 2 in the limits2 build): the deep branch hangs off the first, the second or the last of three
+\* children, in arrays and in objects.  Tree.tla (DupKids): a duplicate is refused exactly when some node lies deeper than the limit.
+RECURSIVE Second(_)
+Second(d) == IF d = 0 THEN N1 ELSE VArr(<<N1, Second(d - 1)>>)
+RECURSIVE First(_)
+First(d) == IF d = 0 THEN N1 ELSE VArr(<<First(d - 1), N1>>)
+RECURSIVE Third(_)
+Third(d) == IF d = 0 THEN VNull ELSE VObj(<< <<<<97>>, N1>>, <<<<98>>, VNull>>, <<<<99>>, Third(d - 1)>> >>)
+RECURSIVE TreeHeight(_)
+TreeHeight(v) == IF v.m = <<>> THEN 0 ELSE 1 + MaxOf({TreeHeight(v.m[i].v) : i \in DOMAIN v.m})
+LimitCases(L) == {Second(d) : d \in {L - 1, L, L + 1}} \cup {First(d) : d \in {L, L + 1}} \cup {Third(d) : d \in {L, L + 1}}        \* an operator, so that TLC does not evaluate it eagerly
+DupCases == (IF WithLimitCases THEN LimitCases(CircLimit) ELSE {}) \cup {DeepTrail(d) : d \in {1, 8, 15, 16, 17, 31, 32, 33, 34, 35, 36, 40, 64, 100}}
             \cup {DeepObj(d) : d \in {8, 17, 33, 40, 70}} \cup {DeepMix(d) : d \in {9, 18, 36}}
             \cup {VArr([i \in 1..n |-> IF RemB(i, 3) = 0 THEN VStr(RepC(97, RemB(i, 40))) ELSE N1]) : n \in {10, 100, 1000, 3000}}
             \cup {VObj([i \in 1..n |-> <<DecText(i), VArr(<<N1>>)>>]) : n \in {9, 17, 300}}
@@ -35,9 +47,13 @@ Mixed(n) == [i \in 1..n |-> IF RemB(i, 4) = 0 THEN <<195, 132>> \o DecText(i) EL
 SortCases == {Desc(n) : n \in {2, 9, 17, 255, 256, 257, 300, 520, 1000}} \cup {Stride(n, st) : n \in {9, 17, 64, 257, 1021}, st \in {3, 7}}
              \cup {Mixed(n) : n \in {9, 12, 33, 100, 600}} \cup {[i \in 1..n |-> <<107>>] : n \in {3, 9, 300}}
 
-Init == phase = 0 /\ c \in (IF Mode = "dup" THEN DupCases ELSE SortCases)
+\* words whose first difference is one of case only, followed by equal bytes and then a real difference (or the end of one of them):
+\* every ordered pair and triple of them
+Words == {<<88, 121, 122>>, <<120, 121, 97>>, <<65, 97>>, <<97, 97, 98>>, <<99, 111, 110, 116, 101, 110, 116, 45, 76, 101, 110, 103, 116, 104>>, <<67, 111, 110, 116, 101, 110, 116, 45, 84, 121, 112, 101>>, <<97, 98>>, <<65, 66>>, <<97, 66>>, <<97>>, <<97, 98, 99>>, <<65, 66, 100>>, <<120, 89, 98>>}
+WordCases == {<<x, y>> : x, y \in Words} \cup {<<x, y, z>> : x, y, z \in Words}
+Init == phase = 0 /\ c \in (IF Mode = "dup" THEN DupCases ELSE SortCases \cup WordCases)
 Next == /\ phase = 0 /\ phase' = 1 /\ c' = c
         /\ IF Mode = "dup"
-           THEN Emit => PrintT(ToJson(<<"D", JV(c)>>))
+           THEN Emit => PrintT(ToJson(<<"D", JV(c), TreeHeight(c) > CircLimit>>))
            ELSE Emit => (PrintT(ToJson(<<"S", c, TRUE>>)) /\ PrintT(ToJson(<<"S", c, FALSE>>)))
 =============================================================================
